@@ -29,6 +29,9 @@ const (
 type xattr struct {
 	name string // as written: "w:val", "xmlns:w"
 	val  value  // string or sym(string)
+	pre   bool  // harness-supplied: space/local already resolved
+	space value
+	local value
 }
 
 type xtok struct {
@@ -36,6 +39,10 @@ type xtok struct {
 	name  string // as written: "w:p"
 	attrs []xattr
 	text  value // chardata / raw / procinst body
+	// harness-supplied tokens (zzvTokenDecoder) carry their names already resolved:
+	pre   bool
+	space value
+	local value
 }
 
 type fieldTag struct {
@@ -389,7 +396,7 @@ func (m *xmlModeler) marshalStruct(sv structure, t types.Type, st *types.Struct,
 			if !ok {
 				x.abandon("xmlmodel: unsupported attribute type " + ftT.String())
 			}
-			tok.attrs = append(tok.attrs, xattr{ft.name, txt})
+			tok.attrs = append(tok.attrs, xattr{name: ft.name, val: txt})
 			continue
 		}
 		children = append(children, child{i, ft})
@@ -518,7 +525,7 @@ func (m *xmlModeler) spliceEvents(rec *encRec) {
 			if as, ok := st[1].([]value); ok {
 				for _, a := range as {
 					av := a.(structure)
-					tok.attrs = append(tok.attrs, xattr{xnameOf(av[0]), av[1]})
+					tok.attrs = append(tok.attrs, xattr{name: xnameOf(av[0]), val: av[1]})
 				}
 			}
 			m.open(tok)
@@ -552,7 +559,7 @@ func (m *xmlModeler) spliceEvents(rec *encRec) {
 			if as, ok := st[1].([]value); ok {
 				for _, a := range as {
 					av := a.(structure)
-					tok.attrs = append(tok.attrs, xattr{xnameOf(av[0]), av[1]})
+					tok.attrs = append(tok.attrs, xattr{name: xnameOf(av[0]), val: av[1]})
 				}
 			}
 			m.marshal(itf.v, itf.t, "", &tok)
